@@ -45,6 +45,9 @@ func (g *gateImpl) SetCount(count uint16) error {
 		return ErrGateIntegrity
 	}
 	g.count = count
+	if g.arrived == g.count {
+		g.gateCondition.Broadcast()
+	}
 	return nil
 }
 
